@@ -431,16 +431,22 @@ func checkC04(tier string) int {
 	r.Rule = "for every transaction kind the workload produces, a well-formed signed transaction that is valid on a fork of a warmed-up chain is mutated in one field (payload digit, payload address character, each fee field, memo, type, signer public key, signature bit, dropped/duplicated/reordered/substituted signer, key algorithm); a mutant counts only if an independent re-verification (the harness's own check of every originally required signer's signature over type+payload+fee+memo) says it is no longer authentic; each mutant goes to CheckTx and, alone, into a byzantine block on its own fork, whose resulting state is compared key by key with an empty-block twin; non-trivial = mutant of a base that itself succeeds on the fork; distinct by (warm height, kind, mutation)"
 	r.Assumptions = []string{"ed25519/secp256k1 verification of the linked crypto libraries for the independent authenticity decision", "the generator's record of which addresses signed the base transaction"}
 	seed := verdict.Seed()
-	heights := []int{10, 18}
+	heights := []int{10, 18, 13}
 	perKind := 1
 	if tier == "thorough" {
-		heights = []int{7, 11, 16, 22, 30, 38}
+		heights = []int{7, 11, 16, 22, 30, 38, 9, 26}
 		perKind = 2
 	}
 	var warms []*warm
 	var wmu sync.Mutex
-	parallel(len(heights), 6, func(i int) {
-		wm, err := makeWarm(seed*100+int64(i), heights[i], 1, allScripts)
+	parallel(len(heights), 8, func(i int) {
+		// the last warm-up chain (the last two in the thorough tier) never reaches the fork height: the
+		// rules of the consensus path hold before the fork as well
+		fr := int64(1)
+		if i >= len(heights)-1-len(heights)/8 {
+			fr = 0
+		}
+		wm, err := makeWarm(seed*100+int64(i), heights[i], fr, allScripts)
 		if err != nil {
 			r.Inconclusive(fmt.Sprintf("warm-up chain %d failed: %v", i, err))
 			return
